@@ -467,6 +467,34 @@ Proof.
   destruct (append_varint_prefix_free_l v1 v2 e e [] [] H1 H2 E1 E2 eq_refl) as [Hv _]. exact Hv.
 Qed.
 
+(** Length-prefixed byte strings are prefix-free too (both framings). *)
+Theorem varint_bytes_prefix_free_l v1 v2 e1 e2 r1 r2 :
+  N.of_nat (length v1) <= max_varint -> N.of_nat (length v2) <= max_varint ->
+  append_varint_bytes [] v1 = Ok e1 -> append_varint_bytes [] v2 = Ok e2 ->
+  e1 ++ r1 = e2 ++ r2 -> v1 = v2 /\ e1 = e2 /\ r1 = r2.
+Proof.
+  intros H1 H2 E1 E2 Heq.
+  destruct (varint_bytes_roundtrip_l [] v1 r1 H1) as [x1 [A1 C1]].
+  destruct (varint_bytes_roundtrip_l [] v2 r2 H2) as [x2 [A2 C2]].
+  cbn [app] in A1, A2. rewrite E1 in A1. injection A1 as <-. rewrite E2 in A2. injection A2 as <-.
+  rewrite Heq in C1. rewrite C1 in C2. injection C2 as Hv Hl.
+  subst v2. rewrite E1 in E2. injection E2 as He. subst e2.
+  split; [reflexivity | split; [reflexivity | exact (app_inv_head _ _ _ Heq)]].
+Qed.
+Theorem uint8_bytes_prefix_free_l v1 v2 e1 e2 r1 r2 :
+  (length v1 <= 255)%nat -> (length v2 <= 255)%nat ->
+  append_uint8_bytes [] v1 = Ok e1 -> append_uint8_bytes [] v2 = Ok e2 ->
+  e1 ++ r1 = e2 ++ r2 -> v1 = v2 /\ e1 = e2 /\ r1 = r2.
+Proof.
+  intros H1 H2 E1 E2 Heq.
+  destruct (uint8_bytes_roundtrip_l [] v1 r1 H1) as [x1 [A1 C1]].
+  destruct (uint8_bytes_roundtrip_l [] v2 r2 H2) as [x2 [A2 C2]].
+  cbn [app] in A1, A2. rewrite E1 in A1. injection A1 as <-. rewrite E2 in A2. injection A2 as <-.
+  rewrite Heq in C1. rewrite C1 in C2. injection C2 as Hv Hl.
+  subst v2. rewrite E1 in E2. injection E2 as He. subst e2.
+  split; [reflexivity | split; [reflexivity | exact (app_inv_head _ _ _ Heq)]].
+Qed.
+
 (** Non-vacuity: concrete instances *)
 Example ex_enc_16383 : append_varint [x01] 16383 = Ok [x01; x7f; xff].
 Proof. vm_compute. reflexivity. Qed.
